@@ -1767,6 +1767,17 @@ fn plan_keeper(w: &World, actor: &mut Actor, l: &Ledger) -> Vec<(Tx, String)> {
     if rng.chance(4, 5) && ps.iter().any(|(_, p)| p.liquidity > 0) {
         ps.retain(|(_, p)| p.liquidity > 0);
     }
+    if rng.chance(1, 12) {
+        // a stranger sends lamports to the address of a tick array nobody has created yet (near the price)
+        if let Some(pool) = l.data(&pi.keys.whirlpool).and_then(decode::pool) {
+            let sp = pi.keys.tick_spacing;
+            let start = ta_start(pool.tick_current_index, sp) + rng.range(-2, 2) as i32 * 88 * sp as i32;
+            let key = ix::pda_tick_array(&pi.keys.whirlpool, start);
+            if !l.exists(&key) && start >= ta_start(decode::MIN_TICK, sp) && start <= decode::MAX_TICK {
+                RAW_EVENTS.with(|r| r.borrow_mut().push(HEvent::Put { key, lamports: 890_880 + rng.below(10_000_000), owner: ix::sys(), data: vec![], tag: "lamports sent to the address of an uninitialized tick array".into() }));
+            }
+        }
+    }
     if !ps.is_empty() {
         let (k, p) = &ps[rng.idx(ps.len())];
         let sp = pi.keys.tick_spacing;
